@@ -2,7 +2,8 @@
 
 
 def install_all(it):
-    from . import bytesm, btree, timekad, maddr, env, seq, core, cidm, strm, cryptom
+    from . import bytesm, btree, timekad, maddr, env, seq, core, cidm, strm, cryptom, asyncm
+    asyncm.install(it)
     cryptom.install(it)
     strm.install(it)
     cidm.install(it)
